@@ -62,6 +62,8 @@ def _run_one(args):
             return v_name, "ran", None, sorted(_violation_set(rep))
         except AnalysisError as e:
             return v_name, "analysis-error", str(e), None
+        except Exception as e:
+            return v_name, "analysis-error", f"{type(e).__name__}: {e}", None
     finally:
         shutil.rmtree(tmp, ignore_errors=True)
 
